@@ -89,7 +89,17 @@ enum Fam {
     Rtc,
 }
 
-const FAMS: [Fam; 9] = [Fam::V4Mp, Fam::V4Mc, Fam::V6, Fam::Vpn4, Fam::Vpn6, Fam::Lab4, Fam::Lab6, Fam::Evpn, Fam::Rtc];
+const FAMS: [Fam; 9] = [
+    Fam::V4Mp,
+    Fam::V4Mc,
+    Fam::V6,
+    Fam::Vpn4,
+    Fam::Vpn6,
+    Fam::Lab4,
+    Fam::Lab6,
+    Fam::Evpn,
+    Fam::Rtc,
+];
 
 impl Fam {
     fn afi_safi(self) -> (u16, u8) {
@@ -147,7 +157,9 @@ fn spec_flags(code: u8) -> Option<u8> {
     Some(match code {
         ORIGIN | AS_PATH | NEXT_HOP | LOCAL_PREF | ATOMIC_AGGREGATE => F_TRANS,
         MED | ORIGINATOR_ID | CLUSTER_LIST | MP_REACH | MP_UNREACH | AIGP => F_OPT,
-        AGGREGATOR | COMMUNITY | EXT_COMMUNITY | AS4_PATH | AS4_AGGREGATOR | LARGE_COMMUNITY => F_OPT | F_TRANS,
+        AGGREGATOR | COMMUNITY | EXT_COMMUNITY | AS4_PATH | AS4_AGGREGATOR | LARGE_COMMUNITY => {
+            F_OPT | F_TRANS
+        }
         _ => return None,
     })
 }
@@ -186,7 +198,12 @@ impl PfxGen {
     fn v4(&mut self, rng: &mut Rng) -> (u8, [u8; 4]) {
         self.ctr = self.ctr.wrapping_add(1);
         let len = rng.range(16, 32) as u8;
-        let mut a = [10 + (rng.below(3) as u8) * 90, self.ctr, rng.next_u64() as u8, rng.next_u64() as u8];
+        let mut a = [
+            10 + (rng.below(3) as u8) * 90,
+            self.ctr,
+            rng.next_u64() as u8,
+            rng.next_u64() as u8,
+        ];
         mask_bits(&mut a, len);
         (len, a)
     }
@@ -398,9 +415,19 @@ fn gen_as_path(cfg: &Cfg, rng: &mut Rng, want_as4: bool) -> (Vec<u8>, Option<Vec
     match cfg.role {
         Role::Ibgp if rng.bool() => {}
         Role::Confed => {
-            segs.push((3, (0..rng.range(1, 3)).map(|_| 64600 + rng.below(50) as u32).collect()));
+            segs.push((
+                3,
+                (0..rng.range(1, 3))
+                    .map(|_| 64600 + rng.below(50) as u32)
+                    .collect(),
+            ));
             if rng.bool() {
-                segs.push((2, (0..rng.range(1, 3)).map(|_| 100 + rng.below(60000) as u32).collect()));
+                segs.push((
+                    2,
+                    (0..rng.range(1, 3))
+                        .map(|_| 100 + rng.below(60000) as u32)
+                        .collect(),
+                ));
             }
         }
         _ => {
@@ -410,7 +437,13 @@ fn gen_as_path(cfg: &Cfg, rng: &mut Rng, want_as4: bool) -> (Vec<u8>, Option<Vec
                 segs.push((
                     t,
                     (0..n)
-                        .map(|_| if rng.chance(1, 4) { 70000 + rng.below(100000) as u32 } else { 100 + rng.below(60000) as u32 })
+                        .map(|_| {
+                            if rng.chance(1, 4) {
+                                70000 + rng.below(100000) as u32
+                            } else {
+                                100 + rng.below(60000) as u32
+                            }
+                        })
                         .collect(),
                 ));
             }
@@ -421,7 +454,11 @@ fn gen_as_path(cfg: &Cfg, rng: &mut Rng, want_as4: bool) -> (Vec<u8>, Option<Vec
         p.push(*t);
         p.push(asns.len() as u8);
         for a in asns {
-            let a = if cfg.two_byte && *a > 65535 { 23456 } else { *a };
+            let a = if cfg.two_byte && *a > 65535 {
+                23456
+            } else {
+                *a
+            };
             push_asn(&mut p, a, cfg.two_byte);
         }
     }
@@ -453,73 +490,158 @@ fn gen_attrs(cfg: &Cfg, rng: &mut Rng, announce_legacy: bool, announce_any: bool
     }
     let opt = |rng: &mut Rng| rng.chance(35, 100);
     let ptl = |rng: &mut Rng| if rng.chance(1, 6) { F_PARTIAL } else { 0 };
-    v.push(TAttr { code: ORIGIN, flags: F_TRANS, val: vec![rng.below(3) as u8] });
-    let want_as4 = if cfg.two_byte { rng.chance(40, 100) } else { rng.chance(15, 100) };
+    v.push(TAttr {
+        code: ORIGIN,
+        flags: F_TRANS,
+        val: vec![rng.below(3) as u8],
+    });
+    let want_as4 = if cfg.two_byte {
+        rng.chance(40, 100)
+    } else {
+        rng.chance(15, 100)
+    };
     let (asp, as4p) = gen_as_path(cfg, rng, want_as4);
-    v.push(TAttr { code: AS_PATH, flags: F_TRANS, val: asp });
+    v.push(TAttr {
+        code: AS_PATH,
+        flags: F_TRANS,
+        val: asp,
+    });
     if announce_legacy {
-        v.push(TAttr { code: NEXT_HOP, flags: F_TRANS, val: vec![192, 0, 2, rng.range(1, 254) as u8] });
+        v.push(TAttr {
+            code: NEXT_HOP,
+            flags: F_TRANS,
+            val: vec![192, 0, 2, rng.range(1, 254) as u8],
+        });
     }
     if opt(rng) {
-        v.push(TAttr { code: MED, flags: F_OPT, val: rng.next_u32().to_be_bytes().to_vec() });
+        v.push(TAttr {
+            code: MED,
+            flags: F_OPT,
+            val: rng.next_u32().to_be_bytes().to_vec(),
+        });
     }
     let ibgp_only = match cfg.role {
         Role::Ebgp => 25,
         _ => 40,
     };
-    if (cfg.role != Role::Ebgp && rng.chance(9, 10)) || (cfg.role == Role::Ebgp && rng.chance(ibgp_only, 100)) {
-        v.push(TAttr { code: LOCAL_PREF, flags: F_TRANS, val: (rng.below(1000) as u32).to_be_bytes().to_vec() });
+    if (cfg.role != Role::Ebgp && rng.chance(9, 10))
+        || (cfg.role == Role::Ebgp && rng.chance(ibgp_only, 100))
+    {
+        v.push(TAttr {
+            code: LOCAL_PREF,
+            flags: F_TRANS,
+            val: (rng.below(1000) as u32).to_be_bytes().to_vec(),
+        });
     }
     if opt(rng) {
-        v.push(TAttr { code: ATOMIC_AGGREGATE, flags: F_TRANS, val: vec![] });
+        v.push(TAttr {
+            code: ATOMIC_AGGREGATE,
+            flags: F_TRANS,
+            val: vec![],
+        });
     }
     let mut agg4: Option<Vec<u8>> = None;
     if opt(rng) {
-        let asn = if rng.chance(1, 3) { 70000 + rng.below(1000) as u32 } else { 100 + rng.below(60000) as u32 };
+        let asn = if rng.chance(1, 3) {
+            70000 + rng.below(1000) as u32
+        } else {
+            100 + rng.below(60000) as u32
+        };
         let mut b = Vec::new();
-        push_asn(&mut b, if cfg.two_byte && asn > 65535 { 23456 } else { asn }, cfg.two_byte);
+        push_asn(
+            &mut b,
+            if cfg.two_byte && asn > 65535 {
+                23456
+            } else {
+                asn
+            },
+            cfg.two_byte,
+        );
         let ip = [203, 0, 113, rng.range(1, 254) as u8];
         b.extend_from_slice(&ip);
-        v.push(TAttr { code: AGGREGATOR, flags: F_OPT | F_TRANS | ptl(rng), val: b });
+        v.push(TAttr {
+            code: AGGREGATOR,
+            flags: F_OPT | F_TRANS | ptl(rng),
+            val: b,
+        });
         let mut a4 = asn.to_be_bytes().to_vec();
         a4.extend_from_slice(&ip);
         agg4 = Some(a4);
     }
     if opt(rng) {
-        v.push(TAttr { code: COMMUNITY, flags: F_OPT | F_TRANS | ptl(rng), val: rbytes(rng, 4, 3) });
+        v.push(TAttr {
+            code: COMMUNITY,
+            flags: F_OPT | F_TRANS | ptl(rng),
+            val: rbytes(rng, 4, 3),
+        });
     }
     if rng.chance(ibgp_only, 100) {
-        v.push(TAttr { code: ORIGINATOR_ID, flags: F_OPT, val: vec![10, 0, 0, rng.range(1, 254) as u8] });
+        v.push(TAttr {
+            code: ORIGINATOR_ID,
+            flags: F_OPT,
+            val: vec![10, 0, 0, rng.range(1, 254) as u8],
+        });
     }
     if rng.chance(ibgp_only, 100) {
-        v.push(TAttr { code: CLUSTER_LIST, flags: F_OPT, val: rbytes(rng, 4, 3) });
+        v.push(TAttr {
+            code: CLUSTER_LIST,
+            flags: F_OPT,
+            val: rbytes(rng, 4, 3),
+        });
     }
     if opt(rng) {
-        v.push(TAttr { code: EXT_COMMUNITY, flags: F_OPT | F_TRANS | ptl(rng), val: rbytes(rng, 8, 3) });
+        v.push(TAttr {
+            code: EXT_COMMUNITY,
+            flags: F_OPT | F_TRANS | ptl(rng),
+            val: rbytes(rng, 8, 3),
+        });
     }
     if let Some(p) = as4p {
-        v.push(TAttr { code: AS4_PATH, flags: F_OPT | F_TRANS | ptl(rng), val: p });
+        v.push(TAttr {
+            code: AS4_PATH,
+            flags: F_OPT | F_TRANS | ptl(rng),
+            val: p,
+        });
     }
     if want_as4 && let Some(a4) = agg4 {
-        v.push(TAttr { code: AS4_AGGREGATOR, flags: F_OPT | F_TRANS | ptl(rng), val: a4 });
+        v.push(TAttr {
+            code: AS4_AGGREGATOR,
+            flags: F_OPT | F_TRANS | ptl(rng),
+            val: a4,
+        });
     }
     if opt(rng) {
-        v.push(TAttr { code: LARGE_COMMUNITY, flags: F_OPT | F_TRANS | ptl(rng), val: rbytes(rng, 12, 2) });
+        v.push(TAttr {
+            code: LARGE_COMMUNITY,
+            flags: F_OPT | F_TRANS | ptl(rng),
+            val: rbytes(rng, 12, 2),
+        });
     }
     if opt(rng) {
         let mut b = vec![1, 0, 11];
         b.extend_from_slice(&rng.next_u64().to_be_bytes());
-        v.push(TAttr { code: AIGP, flags: F_OPT, val: b });
+        v.push(TAttr {
+            code: AIGP,
+            flags: F_OPT,
+            val: b,
+        });
     }
     if opt(rng) {
-        v.push(TAttr { code: 200 + rng.below(8) as u8, flags: F_OPT | F_TRANS | ptl(rng), val: rbytes0(rng, 8) });
+        v.push(TAttr {
+            code: 200 + rng.below(8) as u8,
+            flags: F_OPT | F_TRANS | ptl(rng),
+            val: rbytes0(rng, 8),
+        });
     }
     if opt(rng) {
-        v.push(TAttr { code: 211 + rng.below(8) as u8, flags: F_OPT, val: rbytes0(rng, 8) });
+        v.push(TAttr {
+            code: 211 + rng.below(8) as u8,
+            flags: F_OPT,
+            val: rbytes0(rng, 8),
+        });
     }
     v
 }
-
 
 fn gen_template(rng: &mut Rng) -> Tmpl {
     let cfg = Cfg {
@@ -528,7 +650,21 @@ fn gen_template(rng: &mut Rng) -> Tmpl {
         addpath: rng.chance(1, 4),
     };
     // weights: the announcing scenarios dominate
-    let scenario = *rng.pick(&["v4", "v4", "v4+wd", "v4+wd", "wd-only", "mp", "mp", "mp", "mp+unreach", "mp+unreach", "unreach-only", "mixed", "mixed"]);
+    let scenario = *rng.pick(&[
+        "v4",
+        "v4",
+        "v4+wd",
+        "v4+wd",
+        "wd-only",
+        "mp",
+        "mp",
+        "mp",
+        "mp+unreach",
+        "mp+unreach",
+        "unreach-only",
+        "mixed",
+        "mixed",
+    ]);
     let mut pg = PfxGen { ctr: 0 };
     let legacy_a = matches!(scenario, "v4" | "v4+wd" | "mixed");
     let legacy_w = matches!(scenario, "v4+wd" | "wd-only" | "mixed");
@@ -587,7 +723,11 @@ fn gen_template(rng: &mut Rng) -> Tmpl {
                 b.extend_from_slice(&one);
                 mp_a_nlri.push(one);
             }
-            attrs.push(TAttr { code: MP_REACH, flags: F_OPT, val: b });
+            attrs.push(TAttr {
+                code: MP_REACH,
+                flags: F_OPT,
+                val: b,
+            });
         }
         if mp_w {
             let mut b = afi.to_be_bytes().to_vec();
@@ -605,7 +745,11 @@ fn gen_template(rng: &mut Rng) -> Tmpl {
                 }
                 mp_w_nlri.push(one);
             }
-            attrs.push(TAttr { code: MP_UNREACH, flags: F_OPT, val: b });
+            attrs.push(TAttr {
+                code: MP_UNREACH,
+                flags: F_OPT,
+                val: b,
+            });
         }
     }
     match rng.below(5) {
@@ -616,7 +760,19 @@ fn gen_template(rng: &mut Rng) -> Tmpl {
         }
         _ => attrs.sort_by_key(|a| a.code),
     }
-    Tmpl { cfg, scenario, withdrawn, nlri, nlri_txt, attrs, mp_fam, n_mp_reach, n_mp_unreach, mp_a_nlri, mp_w_nlri }
+    Tmpl {
+        cfg,
+        scenario,
+        withdrawn,
+        nlri,
+        nlri_txt,
+        attrs,
+        mp_fam,
+        n_mp_reach,
+        n_mp_unreach,
+        mp_a_nlri,
+        mp_w_nlri,
+    }
 }
 // ---------------------------------------------------------------- corruption engine
 
@@ -731,21 +887,32 @@ struct Item {
 }
 
 fn filler(n: usize, seed: u8) -> Vec<u8> {
-    (0..n).map(|i| (i as u8).wrapping_mul(7).wrapping_add(seed) | 1).collect()
+    (0..n)
+        .map(|i| (i as u8).wrapping_mul(7).wrapping_add(seed) | 1)
+        .collect()
 }
 
 /// a different but valid value of the same attribute (for duplicates)
 fn alt_value(code: u8, val: &[u8], seed: u32) -> Vec<u8> {
     match code {
         ORIGIN => vec![(val.first().copied().unwrap_or(0) + 1) % 3],
-        MED | LOCAL_PREF | ORIGINATOR_ID => (u32::from_be_bytes([val[0], val[1], val[2], val[3]]) ^ (seed | 1)).to_be_bytes().to_vec(),
-        COMMUNITY | CLUSTER_LIST | EXT_COMMUNITY | LARGE_COMMUNITY => val.iter().map(|b| b ^ (seed as u8 | 1)).collect(),
+        MED | LOCAL_PREF | ORIGINATOR_ID => (u32::from_be_bytes([val[0], val[1], val[2], val[3]])
+            ^ (seed | 1))
+            .to_be_bytes()
+            .to_vec(),
+        COMMUNITY | CLUSTER_LIST | EXT_COMMUNITY | LARGE_COMMUNITY => {
+            val.iter().map(|b| b ^ (seed as u8 | 1)).collect()
+        }
         _ => val.to_vec(),
     }
 }
 
 fn seg_width(code: u8, cfg: &Cfg) -> usize {
-    if code == AS_PATH && cfg.two_byte { 2 } else { 4 }
+    if code == AS_PATH && cfg.two_byte {
+        2
+    } else {
+        4
+    }
 }
 
 /// offsets of the segment headers of an AS_PATH-like value
@@ -814,7 +981,11 @@ fn mutate(it: &mut Item, code: u8, k: &FK, t: &Tmpl) {
         }
         FK::MpShort(n) => it.val.truncate(*n),
         FK::MpNlriBad => {
-            let start = if code == MP_REACH { 4 + it.val.get(3).copied().unwrap_or(0) as usize + 1 } else { 3 };
+            let start = if code == MP_REACH {
+                4 + it.val.get(3).copied().unwrap_or(0) as usize + 1
+            } else {
+                3
+            };
             let start = start + if t.cfg.addpath { 4 } else { 0 };
             if start < it.val.len() {
                 it.val[start] = 0xff;
@@ -827,7 +998,11 @@ fn mutate(it: &mut Item, code: u8, k: &FK, t: &Tmpl) {
             }
         }
         FK::MpLabels(n) => {
-            let start = if code == MP_REACH { 4 + it.val.get(3).copied().unwrap_or(0) as usize + 1 } else { 3 };
+            let start = if code == MP_REACH {
+                4 + it.val.get(3).copied().unwrap_or(0) as usize + 1
+            } else {
+                3
+            };
             let start = start + if t.cfg.addpath { 4 } else { 0 };
             if start < it.val.len() {
                 it.val[start] = 0xff;
@@ -847,14 +1022,24 @@ fn build(t: &Tmpl, faults: &[Fault]) -> Built {
     let mut items: Vec<Item> = t
         .attrs
         .iter()
-        .map(|a| Item { code: a.code, flags: a.flags, val: a.val.clone(), ext: a.val.len() > 255, len_override: None, raw_ext_flip: false, is_dup: false })
+        .map(|a| Item {
+            code: a.code,
+            flags: a.flags,
+            val: a.val.clone(),
+            ext: a.val.len() > 255,
+            len_override: None,
+            raw_ext_flip: false,
+            is_dup: false,
+        })
         .collect();
     // per-attribute mutations of the first copy, then structural ones, then the later copies
     for f in faults {
         if matches!(f.k, FK::OnDup(_)) {
             continue;
         }
-        let Some(ix) = items.iter().position(|i| i.code == f.code) else { continue };
+        let Some(ix) = items.iter().position(|i| i.code == f.code) else {
+            continue;
+        };
         mutate(&mut items[ix], f.code, &f.k, t);
     }
     for f in faults {
@@ -883,7 +1068,18 @@ fn build(t: &Tmpl, faults: &[Fault]) -> Built {
             }
             FK::UnknownWk(flags, len, pos) => {
                 let at = *pos as usize % (items.len() + 1);
-                items.insert(at, Item { code: f.code, flags: *flags, val: filler(*len as usize, 3), ext: false, len_override: None, raw_ext_flip: false, is_dup: false });
+                items.insert(
+                    at,
+                    Item {
+                        code: f.code,
+                        flags: *flags,
+                        val: filler(*len as usize, 3),
+                        ext: false,
+                        len_override: None,
+                        raw_ext_flip: false,
+                        is_dup: false,
+                    },
+                );
             }
             _ => {}
         }
@@ -924,7 +1120,11 @@ fn build(t: &Tmpl, faults: &[Fault]) -> Built {
                 }
             }
             FK::AttrLen(d) => {
-                attr_len = if *d > 60000 { *d as i64 } else { (attr_len + *d as i64).clamp(0, 65535) };
+                attr_len = if *d > 60000 {
+                    *d as i64
+                } else {
+                    (attr_len + *d as i64).clamp(0, 65535)
+                };
             }
             FK::MsgTrunc(n) => trunc = *n as usize,
             _ => {}
@@ -1011,16 +1211,46 @@ fn bad_sizes(t: &Tmpl, code: u8) -> Vec<(usize, &'static str)> {
     let cur = val_of(t, code).len();
     let mut v: Vec<(usize, &'static str)> = match code {
         ORIGIN => vec![(0, "len"), (2, "len"), (4, "len")],
-        NEXT_HOP => vec![(0, "len"), (3, "len"), (5, "len"), (8, "len"), (12, "len"), (16, "len"), (32, "len")],
+        NEXT_HOP => vec![
+            (0, "len"),
+            (3, "len"),
+            (5, "len"),
+            (8, "len"),
+            (12, "len"),
+            (16, "len"),
+            (32, "len"),
+        ],
         MED | LOCAL_PREF | ORIGINATOR_ID => vec![(0, "len"), (3, "len"), (5, "len"), (8, "len")],
         ATOMIC_AGGREGATE => vec![(1, "len"), (4, "len")],
         AGGREGATOR => {
             let other = if t.cfg.two_byte { 8 } else { 6 };
-            vec![(0, "len"), (5, "len"), (7, "len"), (9, "len"), (other, "len-aswidth"), (other, "len-aswidth")]
+            vec![
+                (0, "len"),
+                (5, "len"),
+                (7, "len"),
+                (9, "len"),
+                (other, "len-aswidth"),
+                (other, "len-aswidth"),
+            ]
         }
-        COMMUNITY | CLUSTER_LIST => vec![(0, "len-zero"), (cur + 1, "len"), (cur + 2, "len"), (cur - 1, "len")],
-        EXT_COMMUNITY => vec![(0, "len-zero"), (cur + 4, "len"), (cur - 1, "len"), (cur + 1, "len")],
-        LARGE_COMMUNITY => vec![(0, "len-zero"), (cur + 4, "len"), (cur + 8, "len"), (cur - 1, "len")],
+        COMMUNITY | CLUSTER_LIST => vec![
+            (0, "len-zero"),
+            (cur + 1, "len"),
+            (cur + 2, "len"),
+            (cur - 1, "len"),
+        ],
+        EXT_COMMUNITY => vec![
+            (0, "len-zero"),
+            (cur + 4, "len"),
+            (cur - 1, "len"),
+            (cur + 1, "len"),
+        ],
+        LARGE_COMMUNITY => vec![
+            (0, "len-zero"),
+            (cur + 4, "len"),
+            (cur + 8, "len"),
+            (cur - 1, "len"),
+        ],
         AS4_PATH => vec![(0, "len"), (2, "len"), (4, "len"), (cur + 1, "len")],
         AS4_AGGREGATOR => vec![(0, "len"), (6, "len"), (7, "len"), (9, "len")],
         _ => vec![],
@@ -1040,7 +1270,12 @@ fn choose_faults(t: &Tmpl, rng: &mut Rng, only: Option<&str>) -> Vec<Fault> {
     let mut out: Vec<Fault> = Vec::new();
     let mut used: BTreeSet<u8> = BTreeSet::new();
     let mut msg_level: BTreeSet<&'static str> = BTreeSet::new();
-    let known: Vec<u8> = t.attrs.iter().map(|a| a.code).filter(|c| spec_flags(*c).is_some()).collect();
+    let known: Vec<u8> = t
+        .attrs
+        .iter()
+        .map(|a| a.code)
+        .filter(|c| spec_flags(*c).is_some())
+        .collect();
     let all: Vec<u8> = t.attrs.iter().map(|a| a.code).collect();
     let kinds: [(&str, u32); 25] = [
         ("dup+first", 7),
@@ -1088,15 +1323,33 @@ fn choose_faults(t: &Tmpl, rng: &mut Rng, only: Option<&str>) -> Vec<Fault> {
             continue;
         }
         let mut extra: Vec<Fault> = Vec::new();
-        let free = |cands: &[u8], used: &BTreeSet<u8>| -> Vec<u8> { cands.iter().copied().filter(|c| !used.contains(c)).collect() };
+        let free = |cands: &[u8], used: &BTreeSet<u8>| -> Vec<u8> {
+            cands
+                .iter()
+                .copied()
+                .filter(|c| !used.contains(c))
+                .collect()
+        };
         let f: Option<Fault> = match kind {
             "flags" => {
                 let c = free(&known, &used);
-                (!c.is_empty()).then(|| Fault { code: *rng.pick(&c), k: FK::Flags(*rng.pick(&[F_OPT, F_TRANS, F_OPT | F_TRANS])) })
+                (!c.is_empty()).then(|| Fault {
+                    code: *rng.pick(&c),
+                    k: FK::Flags(*rng.pick(&[F_OPT, F_TRANS, F_OPT | F_TRANS])),
+                })
             }
             "flags-mand" => {
-                let c = free(&[ORIGIN, AS_PATH, NEXT_HOP].into_iter().filter(|c| present(t, *c)).collect::<Vec<_>>(), &used);
-                (!c.is_empty()).then(|| Fault { code: *rng.pick(&c), k: FK::Flags(*rng.pick(&[F_OPT, F_TRANS, F_OPT | F_TRANS])) })
+                let c = free(
+                    &[ORIGIN, AS_PATH, NEXT_HOP]
+                        .into_iter()
+                        .filter(|c| present(t, *c))
+                        .collect::<Vec<_>>(),
+                    &used,
+                );
+                (!c.is_empty()).then(|| Fault {
+                    code: *rng.pick(&c),
+                    k: FK::Flags(*rng.pick(&[F_OPT, F_TRANS, F_OPT | F_TRANS])),
+                })
             }
             "partial" => {
                 let c: Vec<u8> = free(&all, &used)
@@ -1106,22 +1359,37 @@ fn choose_faults(t: &Tmpl, rng: &mut Rng, only: Option<&str>) -> Vec<Fault> {
                         fl & (F_OPT | F_TRANS) != (F_OPT | F_TRANS)
                     })
                     .collect();
-                (!c.is_empty()).then(|| Fault { code: *rng.pick(&c), k: FK::Partial })
+                (!c.is_empty()).then(|| Fault {
+                    code: *rng.pick(&c),
+                    k: FK::Partial,
+                })
             }
             "lowbits" => {
                 let c = free(&all, &used);
-                (!c.is_empty()).then(|| Fault { code: *rng.pick(&c), k: FK::LowBits(rng.range(1, 15) as u8) })
+                (!c.is_empty()).then(|| Fault {
+                    code: *rng.pick(&c),
+                    k: FK::LowBits(rng.range(1, 15) as u8),
+                })
             }
             "extlen" => {
                 let c = free(&all, &used);
-                (!c.is_empty()).then(|| Fault { code: *rng.pick(&c), k: FK::ExtLen })
+                (!c.is_empty()).then(|| Fault {
+                    code: *rng.pick(&c),
+                    k: FK::ExtLen,
+                })
             }
             "extlen-raw" => {
                 let c = free(&all, &used);
-                (!c.is_empty()).then(|| Fault { code: *rng.pick(&c), k: FK::ExtLenRaw })
+                (!c.is_empty()).then(|| Fault {
+                    code: *rng.pick(&c),
+                    k: FK::ExtLenRaw,
+                })
             }
             "len" | "len-mand" | "len-zero" | "len-aswidth" | "nh-as-v6" => {
-                let mut c: Vec<u8> = free(&known, &used).into_iter().filter(|c| !bad_sizes(t, *c).is_empty()).collect();
+                let mut c: Vec<u8> = free(&known, &used)
+                    .into_iter()
+                    .filter(|c| !bad_sizes(t, *c).is_empty())
+                    .collect();
                 if kind == "len-mand" {
                     c.retain(|c| matches!(*c, ORIGIN | NEXT_HOP));
                 }
@@ -1132,7 +1400,12 @@ fn choose_faults(t: &Tmpl, rng: &mut Rng, only: Option<&str>) -> Vec<Fault> {
                     c.retain(|c| *c == AGGREGATOR);
                 }
                 if kind == "len-zero" {
-                    c.retain(|c| matches!(*c, COMMUNITY | CLUSTER_LIST | EXT_COMMUNITY | LARGE_COMMUNITY));
+                    c.retain(|c| {
+                        matches!(
+                            *c,
+                            COMMUNITY | CLUSTER_LIST | EXT_COMMUNITY | LARGE_COMMUNITY
+                        )
+                    });
                 }
                 if c.is_empty() {
                     None
@@ -1152,7 +1425,10 @@ fn choose_faults(t: &Tmpl, rng: &mut Rng, only: Option<&str>) -> Vec<Fault> {
                         None
                     } else {
                         let (n, name) = *rng.pick(&sizes);
-                        Some(Fault { code, k: FK::Resize(n, name) })
+                        Some(Fault {
+                            code,
+                            k: FK::Resize(n, name),
+                        })
                     }
                 }
             }
@@ -1160,12 +1436,24 @@ fn choose_faults(t: &Tmpl, rng: &mut Rng, only: Option<&str>) -> Vec<Fault> {
                 let c = free(&all, &used);
                 (!c.is_empty()).then(|| {
                     let d = *rng.pick(&[-3, -2, -1, 1, 2, 3, 7, 40, 200]);
-                    Fault { code: *rng.pick(&c), k: FK::LenField(d) }
+                    Fault {
+                        code: *rng.pick(&c),
+                        k: FK::LenField(d),
+                    }
                 })
             }
-            "value" => (present(t, ORIGIN) && !used.contains(&ORIGIN)).then(|| Fault { code: ORIGIN, k: FK::Value(rng.range(3, 255) as u8) }),
+            "value" => (present(t, ORIGIN) && !used.contains(&ORIGIN)).then(|| Fault {
+                code: ORIGIN,
+                k: FK::Value(rng.range(3, 255) as u8),
+            }),
             "seg" | "seg-zero" => {
-                let c = free(&[AS_PATH, AS4_PATH].into_iter().filter(|c| present(t, *c)).collect::<Vec<_>>(), &used);
+                let c = free(
+                    &[AS_PATH, AS4_PATH]
+                        .into_iter()
+                        .filter(|c| present(t, *c))
+                        .collect::<Vec<_>>(),
+                    &used,
+                );
                 if c.is_empty() {
                     None
                 } else {
@@ -1186,11 +1474,17 @@ fn choose_faults(t: &Tmpl, rng: &mut Rng, only: Option<&str>) -> Vec<Fault> {
             }
             "dup" => {
                 let c = free(&all, &used);
-                (!c.is_empty()).then(|| Fault { code: *rng.pick(&c), k: FK::Dup(rng.next_u32(), rng.below(16)) })
+                (!c.is_empty()).then(|| Fault {
+                    code: *rng.pick(&c),
+                    k: FK::Dup(rng.next_u32(), rng.below(16)),
+                })
             }
             "dup+first" | "dup+later" | "dup+both" => {
                 // a duplicate together with a fault on the first copy, on the later copy, or on both
-                let c: Vec<u8> = free(&all, &used).into_iter().filter(|c| *c != MP_REACH && *c != MP_UNREACH).collect();
+                let c: Vec<u8> = free(&all, &used)
+                    .into_iter()
+                    .filter(|c| *c != MP_REACH && *c != MP_UNREACH)
+                    .collect();
                 if c.is_empty() {
                     None
                 } else {
@@ -1203,28 +1497,65 @@ fn choose_faults(t: &Tmpl, rng: &mut Rng, only: Option<&str>) -> Vec<Fault> {
                     if kind != "dup+first"
                         && let Some(k) = attr_fault(t, code, rng)
                     {
-                        extra.push(Fault { code, k: FK::OnDup(Box::new(k)) });
+                        extra.push(Fault {
+                            code,
+                            k: FK::OnDup(Box::new(k)),
+                        });
                     }
-                    Some(Fault { code, k: FK::Dup(rng.next_u32(), rng.below(16)) })
+                    Some(Fault {
+                        code,
+                        k: FK::Dup(rng.next_u32(), rng.below(16)),
+                    })
                 }
             }
             "omit" => {
-                let c = free(&[ORIGIN, AS_PATH, NEXT_HOP].into_iter().filter(|c| present(t, *c)).collect::<Vec<_>>(), &used);
-                (announces(t) && !c.is_empty()).then(|| Fault { code: *rng.pick(&c), k: FK::Omit })
+                let c = free(
+                    &[ORIGIN, AS_PATH, NEXT_HOP]
+                        .into_iter()
+                        .filter(|c| present(t, *c))
+                        .collect::<Vec<_>>(),
+                    &used,
+                );
+                (announces(t) && !c.is_empty()).then(|| Fault {
+                    code: *rng.pick(&c),
+                    k: FK::Omit,
+                })
             }
             "unknown-wk" => {
                 // a type code that is neither assigned in the template nor known
                 let code = 100 + rng.below(60) as u8;
-                (!used.contains(&code)).then(|| Fault { code, k: FK::UnknownWk(*rng.pick(&[F_TRANS, 0u8, F_TRANS | F_PARTIAL]), rng.below(6) as u8, rng.next_u32()) })
+                (!used.contains(&code)).then(|| Fault {
+                    code,
+                    k: FK::UnknownWk(
+                        *rng.pick(&[F_TRANS, 0u8, F_TRANS | F_PARTIAL]),
+                        rng.below(6) as u8,
+                        rng.next_u32(),
+                    ),
+                })
             }
             "attrlen" => (!msg_level.contains("attrlen")).then(|| {
                 let d = *rng.pick(&[-9, -4, -3, -2, -1, 1, 2, 3, 5, 17, 300, 65000, 65535]);
-                Fault { code: 0, k: FK::AttrLen(d) }
+                Fault {
+                    code: 0,
+                    k: FK::AttrLen(d),
+                }
             }),
-            "msgtrunc" => (!msg_level.contains("msgtrunc")).then(|| Fault { code: 0, k: FK::MsgTrunc(rng.range(1, 12) as u32) }),
-            "nlri" => (!t.nlri.is_empty() && !msg_level.contains("nlri")).then(|| Fault { code: 0, k: FK::NlriBad }),
+            "msgtrunc" => (!msg_level.contains("msgtrunc")).then(|| Fault {
+                code: 0,
+                k: FK::MsgTrunc(rng.range(1, 12) as u32),
+            }),
+            "nlri" => (!t.nlri.is_empty() && !msg_level.contains("nlri")).then(|| Fault {
+                code: 0,
+                k: FK::NlriBad,
+            }),
             "mp" => {
-                let c = free(&[MP_REACH, MP_UNREACH].into_iter().filter(|c| present(t, *c)).collect::<Vec<_>>(), &used);
+                let c = free(
+                    &[MP_REACH, MP_UNREACH]
+                        .into_iter()
+                        .filter(|c| present(t, *c))
+                        .collect::<Vec<_>>(),
+                    &used,
+                );
                 if c.is_empty() {
                     None
                 } else {
@@ -1337,13 +1668,30 @@ struct Record {
 fn type_discardable(code: u8, cfg: &Cfg) -> bool {
     // "an optional non-transitive attribute, AS4_PATH or AS4_AGGREGATOR" (by attribute type);
     // LOCAL_PREF from an external peer is discarded per RFC 7606 §7.5
-    matches!(code, MED | ORIGINATOR_ID | CLUSTER_LIST | AIGP | MP_REACH | MP_UNREACH | AS4_PATH | AS4_AGGREGATOR) || (code == LOCAL_PREF && cfg.is_ebgp())
+    matches!(
+        code,
+        MED | ORIGINATOR_ID
+            | CLUSTER_LIST
+            | AIGP
+            | MP_REACH
+            | MP_UNREACH
+            | AS4_PATH
+            | AS4_AGGREGATOR
+    ) || (code == LOCAL_PREF && cfg.is_ebgp())
 }
 
 fn classify(t: &Tmpl, faults: &[Fault]) -> Record {
-    let mut r = Record { classes: Vec::new(), framing_touched: false, mp_reach_touched: false, mp_unreach_touched: false, nlri_touched: false, unjudged: Vec::new() };
+    let mut r = Record {
+        classes: Vec::new(),
+        framing_touched: false,
+        mp_reach_touched: false,
+        mp_unreach_touched: false,
+        nlri_touched: false,
+        unjudged: Vec::new(),
+    };
     for f in faults {
-        let mandatory = matches!(f.code, ORIGIN | AS_PATH) || (f.code == NEXT_HOP && !t.nlri.is_empty());
+        let mandatory =
+            matches!(f.code, ORIGIN | AS_PATH) || (f.code == NEXT_HOP && !t.nlri.is_empty());
         let touch_mp = |r: &mut Record| {
             if f.code == MP_REACH {
                 r.mp_reach_touched = true;
@@ -1380,7 +1728,9 @@ fn classify(t: &Tmpl, faults: &[Fault]) -> Record {
             FK::Resize(_, _) => {
                 if mandatory {
                     Class::MustWithdraw
-                } else if type_discardable(f.code, &t.cfg) || matches!(f.code, ATOMIC_AGGREGATE | AGGREGATOR) {
+                } else if type_discardable(f.code, &t.cfg)
+                    || matches!(f.code, ATOMIC_AGGREGATE | AGGREGATOR)
+                {
                     // RFC 7606 §7.6/§7.7: attribute discard for ATOMIC_AGGREGATE / AGGREGATOR length errors
                     Class::Discardable
                 } else {
@@ -1406,7 +1756,9 @@ fn classify(t: &Tmpl, faults: &[Fault]) -> Record {
                 }
             }
             FK::OnDup(sub) => {
-                let has_dup = faults.iter().any(|g| g.code == f.code && matches!(g.k, FK::Dup(..)));
+                let has_dup = faults
+                    .iter()
+                    .any(|g| g.code == f.code && matches!(g.k, FK::Dup(..)));
                 if !has_dup {
                     Class::Benign // no later copy in this list: the fault has no effect
                 } else {
@@ -1498,9 +1850,16 @@ fn signature(clause: &str, code: Option<u8>, faults: &[Fault]) -> String {
                 cs.push(f.0);
             }
         }
-        cs.iter().map(|c| c.to_string()).collect::<Vec<_>>().join("+")
+        cs.iter()
+            .map(|c| c.to_string())
+            .collect::<Vec<_>>()
+            .join("+")
     };
-    let kinds = if fs.is_empty() { "none".into() } else { fs.iter().map(|f| f.1).collect::<Vec<_>>().join("+") };
+    let kinds = if fs.is_empty() {
+        "none".into()
+    } else {
+        fs.iter().map(|f| f.1).collect::<Vec<_>>().join("+")
+    };
     format!("C05/{}/{}/{}", clause, codes, kinds)
 }
 
@@ -1515,7 +1874,9 @@ const LOCAL_RID: Ipv4Addr = Ipv4Addr::new(1, 0, 0, 1);
 const PEER_RID: Ipv4Addr = Ipv4Addr::new(9, 9, 9, 9);
 /// LARGE_COMMUNITY value that marks routes installed by the harness's own valid
 /// "earlier" UPDATEs (never produced by the template generator)
-const PRE_MARK: [u8; 12] = [0x00, 0x00, 0xfd, 0xe9, 0x50, 0x52, 0x45, 0x21, 0xc0, 0x5e, 0x2e, 0x00];
+const PRE_MARK: [u8; 12] = [
+    0x00, 0x00, 0xfd, 0xe9, 0x50, 0x52, 0x45, 0x21, 0xc0, 0x5e, 0x2e, 0x00,
+];
 const SENTINEL_PFX: [u8; 4] = [24, 198, 18, 0];
 const SENTINEL_PATH_ID: u32 = 7;
 const WATCHDOG_S: u64 = 30;
@@ -1695,9 +2056,14 @@ fn e2e_families() -> Vec<Family> {
 
 fn neighbour_caps(cfg: &Cfg) -> Vec<packet::Capability> {
     let fams = e2e_families();
-    let mut v: Vec<packet::Capability> = fams.iter().map(|f| packet::Capability::MultiProtocol(*f)).collect();
+    let mut v: Vec<packet::Capability> = fams
+        .iter()
+        .map(|f| packet::Capability::MultiProtocol(*f))
+        .collect();
     if cfg.addpath {
-        v.push(packet::Capability::AddPath(fams.iter().map(|f| (*f, 2u8)).collect()));
+        v.push(packet::Capability::AddPath(
+            fams.iter().map(|f| (*f, 2u8)).collect(),
+        ));
     }
     if !cfg.two_byte {
         v.push(packet::Capability::FourOctetAsNumber(peer_as(cfg)));
@@ -1721,11 +2087,15 @@ fn open_bytes_with(cfg: &Cfg, early: Option<&[u8]>) -> Result<Vec<u8>, String> {
     });
     let mut codec = bgp::PeerCodec::new();
     let mut tx = BytesMut::with_capacity(512);
-    codec.encode_to(&open, &mut tx).map_err(|_| "OPEN does not encode".to_string())?;
+    codec
+        .encode_to(&open, &mut tx)
+        .map_err(|_| "OPEN does not encode".to_string())?;
     if let Some(u) = early {
         tx.extend_from_slice(u);
     }
-    codec.encode_to(&bgp::Message::Keepalive, &mut tx).map_err(|_| "KEEPALIVE does not encode".to_string())?;
+    codec
+        .encode_to(&bgp::Message::Keepalive, &mut tx)
+        .map_err(|_| "KEEPALIVE does not encode".to_string())?;
     Ok(tx.to_vec())
 }
 
@@ -1772,7 +2142,10 @@ fn make_global(cfg: &Cfg) -> Global {
         let mut members = FnvHashSet::default();
         members.insert(CONFED_LOCAL_MEMBER);
         members.insert(CONFED_PEER_MEMBER);
-        g.confederation = Some(ConfederationConfig { id: CONFED_ID, members });
+        g.confederation = Some(ConfederationConfig {
+            id: CONFED_ID,
+            members,
+        });
     }
     g
 }
@@ -1806,14 +2179,30 @@ impl Ent {
 }
 
 fn sentinel_nlri() -> packet::Nlri {
-    packet::Nlri::V4(bgp::Ipv4Net { addr: Ipv4Addr::new(198, 18, 0, 0), mask: 24 })
+    packet::Nlri::V4(bgp::Ipv4Net {
+        addr: Ipv4Addr::new(198, 18, 0, 0),
+        mask: 24,
+    })
 }
 
 /// MED of the sentinel route currently stored for `peer`
 fn sentinel_tag(tables: &TableHandle, peer: IpAddr) -> Option<u32> {
-    let filter = table::PrefixFilter { prefix: sentinel_nlri(), lookup_type: table::LookupType::Exact };
-    let d = tables.collect_paths(table::TableQuery::AdjIn(peer), Family::IPV4, vec![filter], true);
-    d.iter().flat_map(|d| d.paths.iter()).find_map(|p| p.attr.iter().find(|a| a.code() == MED).and_then(|a| a.value()))
+    let filter = table::PrefixFilter {
+        prefix: sentinel_nlri(),
+        lookup_type: table::LookupType::Exact,
+    };
+    let d = tables.collect_paths(
+        table::TableQuery::AdjIn(peer),
+        Family::IPV4,
+        vec![filter],
+        true,
+    );
+    d.iter().flat_map(|d| d.paths.iter()).find_map(|p| {
+        p.attr
+            .iter()
+            .find(|a| a.code() == MED)
+            .and_then(|a| a.value())
+    })
 }
 
 /// everything stored for `peer` (all families), sentinel left out
@@ -1832,8 +2221,16 @@ fn snapshot(tables: &TableHandle, peer: IpAddr) -> Vec<Ent> {
                 continue;
             }
             for p in d.paths.iter() {
-                let pre = p.attr.iter().any(|a| a.code() == LARGE_COMMUNITY && a.binary().map(|b| b.as_slice()) == Some(&PRE_MARK[..]));
-                out.push(Ent { key: rib_key(f, &d.net, p.remote_path_id), fam: f, pre, attrs: p.attr.clone() });
+                let pre = p.attr.iter().any(|a| {
+                    a.code() == LARGE_COMMUNITY
+                        && a.binary().map(|b| b.as_slice()) == Some(&PRE_MARK[..])
+                });
+                out.push(Ent {
+                    key: rib_key(f, &d.net, p.remote_path_id),
+                    fam: f,
+                    pre,
+                    attrs: p.attr.clone(),
+                });
             }
         }
     }
@@ -1841,7 +2238,21 @@ fn snapshot(tables: &TableHandle, peer: IpAddr) -> Vec<Ent> {
 }
 
 fn describe_rib(ents: &[Ent]) -> String {
-    let mut v: Vec<String> = ents.iter().map(|e| format!("{} {} attrs={:?}", e.key, if e.pre { "(earlier UPDATE)" } else { "(this UPDATE)" }, e.codes())).collect();
+    let mut v: Vec<String> = ents
+        .iter()
+        .map(|e| {
+            format!(
+                "{} {} attrs={:?}",
+                e.key,
+                if e.pre {
+                    "(earlier UPDATE)"
+                } else {
+                    "(this UPDATE)"
+                },
+                e.codes()
+            )
+        })
+        .collect();
     v.sort();
     format!("[{}]", v.join("; "))
 }
@@ -1878,12 +2289,26 @@ impl SockConn {
     async fn new(cfg: Cfg) -> Result<SockConn, HErr> {
         let peer = IpAddr::V4(Ipv4Addr::new(127, 0, 0, 1));
         let mut g = make_global(&cfg);
-        g.add_peer(neighbour_params(&cfg, peer), None).map_err(|e| HErr::Setup(format!("add_peer: {}", e)))?;
+        g.add_peer(neighbour_params(&cfg, peer), None)
+            .map_err(|e| HErr::Setup(format!("add_peer: {}", e)))?;
         let global: GlobalHandle = Arc::new(tokio::sync::RwLock::new(g));
         let tables: TableHandle = Arc::new(TableManager::new(1));
-        let listener = crate::verif_hooks::bind_retry("127.0.0.1:0".parse().unwrap()).await.map_err(|e| HErr::Setup(format!("bind: {}", e)))?;
+        let listener = crate::verif_hooks::bind_retry("127.0.0.1:0".parse().unwrap())
+            .await
+            .map_err(|e| HErr::Setup(format!("bind: {}", e)))?;
         let (active_tx, _active_rx) = mpsc::unbounded_channel::<TcpStream>();
-        Ok(SockConn { cfg, global, tables, listener, client: None, task: None, active_tx, _active_rx, rx: Vec::new(), peer })
+        Ok(SockConn {
+            cfg,
+            global,
+            tables,
+            listener,
+            client: None,
+            task: None,
+            active_tx,
+            _active_rx,
+            rx: Vec::new(),
+            peer,
+        })
     }
 
     fn alive(&self) -> bool {
@@ -1893,22 +2318,43 @@ impl SockConn {
     async fn establish(&mut self) -> Result<(), HErr> {
         match self.establish_with(None).await? {
             Outcome::Alive => Ok(()),
-            Outcome::Reset(n) => Err(HErr::Setup(format!("session did not establish (NOTIFICATION {:?})", n))),
+            Outcome::Reset(n) => Err(HErr::Setup(format!(
+                "session did not establish (NOTIFICATION {:?})",
+                n
+            ))),
         }
     }
 
     async fn establish_with(&mut self, early: Option<&[u8]>) -> Result<Outcome, HErr> {
-        let addr = self.listener.local_addr().map_err(|e| HErr::Setup(e.to_string()))?;
-        let client = crate::verif_hooks::connect_retry(addr).await.map_err(|e| HErr::Setup(format!("connect: {}", e)))?;
-        let (server, _) = self.listener.accept().await.map_err(|e| HErr::Setup(format!("accept: {}", e)))?;
+        let addr = self
+            .listener
+            .local_addr()
+            .map_err(|e| HErr::Setup(e.to_string()))?;
+        let client = crate::verif_hooks::connect_retry(addr)
+            .await
+            .map_err(|e| HErr::Setup(format!("connect: {}", e)))?;
+        let (server, _) = self
+            .listener
+            .accept()
+            .await
+            .map_err(|e| HErr::Setup(format!("accept: {}", e)))?;
         crate::verif_hooks::no_time_wait(&server);
         let _ = client.set_nodelay(true);
         let _ = server.set_nodelay(true);
-        let session = accept_connection(&self.global, &self.tables, server, crate::fsm::Role::Passive)
-            .await
-            .ok_or_else(|| HErr::Setup("accept_connection refused the connection".into()))?;
+        let session = accept_connection(
+            &self.global,
+            &self.tables,
+            server,
+            crate::fsm::Role::Passive,
+        )
+        .await
+        .ok_or_else(|| HErr::Setup("accept_connection refused the connection".into()))?;
         if session.export_ctx.role != want_role(&self.cfg) {
-            return Err(HErr::Setup(format!("session role {:?}, wanted {:?}", session.export_ctx.role, want_role(&self.cfg))));
+            return Err(HErr::Setup(format!(
+                "session role {:?}, wanted {:?}",
+                session.export_ctx.role,
+                want_role(&self.cfg)
+            )));
         }
         let g2 = Arc::clone(&self.global);
         let atx = self.active_tx.clone();
@@ -1931,7 +2377,11 @@ impl SockConn {
                         std::panic::resume_unwind(je.into_panic());
                     }
                 }
-                Err(_) => return Err(HErr::Watchdog("session task did not end after the connection was closed".into())),
+                Err(_) => {
+                    return Err(HErr::Watchdog(
+                        "session task did not end after the connection was closed".into(),
+                    ));
+                }
             }
         }
         Ok(())
@@ -2000,7 +2450,9 @@ impl SockConn {
                 return Ok(Outcome::Alive);
             }
             if start.elapsed().as_secs() >= WATCHDOG_S {
-                return Err(HErr::Watchdog("sentinel route not visible and session not ended".into()));
+                return Err(HErr::Watchdog(
+                    "sentinel route not visible and session not ended".into(),
+                ));
             }
             i += 1;
             if i < 200 {
@@ -2047,7 +2499,10 @@ impl DirectConn {
     async fn establish(&mut self) -> Result<(), HErr> {
         match self.establish_with(None).await? {
             Outcome::Alive => Ok(()),
-            Outcome::Reset(n) => Err(HErr::Setup(format!("direct session did not establish (NOTIFICATION {:?})", n))),
+            Outcome::Reset(n) => Err(HErr::Setup(format!(
+                "direct session did not establish (NOTIFICATION {:?})",
+                n
+            ))),
         }
     }
 
@@ -2060,7 +2515,14 @@ impl DirectConn {
             fams.insert(f, if cfg.addpath { 1 } else { 0 });
         }
         let local_cap = PeerParams::build_local_cap(self.peer, local_as(&cfg), &fams, None, None);
-        let fsm = crate::fsm::PeerFsm::new(u32::from(LOCAL_RID), local_as(&cfg), local_cap.clone(), HOLD_S, peer_as(&cfg), FnvHashMap::default());
+        let fsm = crate::fsm::PeerFsm::new(
+            u32::from(LOCAL_RID),
+            local_as(&cfg),
+            local_cap.clone(),
+            HOLD_S,
+            peer_as(&cfg),
+            FnvHashMap::default(),
+        );
         let arb = Arc::new(std::sync::Mutex::new(ConnArbiter::new(fsm)));
         let context = Arc::new(std::sync::Mutex::new(PeerContext {
             conn_arbiter: arb.clone(),
@@ -2082,13 +2544,25 @@ impl DirectConn {
             local_asn: local_as(&cfg),
             local_addr: self.lsa.ip(),
             link_addr: None,
-            confederation_id: if cfg.role == Role::Confed { CONFED_ID } else { 0 },
+            confederation_id: if cfg.role == Role::Confed {
+                CONFED_ID
+            } else {
+                0
+            },
         };
-        s.cluster_id = if cfg.role == Role::Ibgp { Some(LOCAL_RID) } else { None };
+        s.cluster_id = if cfg.role == Role::Ibgp {
+            Some(LOCAL_RID)
+        } else {
+            None
+        };
         s.local_router_id = LOCAL_RID;
         s.local_cap = local_cap;
         s.codec = s.export_ctx.build_codec();
-        let outputs = s.conn_arbiter.lock().unwrap().process(s.role, crate::fsm::Input::Connected(false));
+        let outputs = s
+            .conn_arbiter
+            .lock()
+            .unwrap()
+            .process(s.role, crate::fsm::Input::Connected(false));
         let (_, effects) = s.apply_outputs(outputs, self.lsa, self.rsa).await;
         s.process_effects(effects, &self.global).await;
         self.sess = Some(s);
@@ -2100,7 +2574,9 @@ impl DirectConn {
     /// The loop of run_select's readable arm (daemon/src/event/mod.rs, `Ok(_) => loop { ... }`),
     /// same calls in the same order with the real functions.
     async fn feed(&mut self, bytes: &[u8]) -> Outcome {
-        let Some(s) = self.sess.as_mut() else { return Outcome::Reset(None) };
+        let Some(s) = self.sess.as_mut() else {
+            return Outcome::Reset(None);
+        };
         self.rxbuf.extend_from_slice(bytes);
         loop {
             match s.codec.try_parse(&mut self.rxbuf) {
@@ -2110,19 +2586,31 @@ impl DirectConn {
                         let is_ebgp = matches!(s.export_ctx.role, PeerRole::Ebgp);
                         match bgp::validate_message(parsed, is_ebgp) {
                             Err(notif) => {
-                                return Outcome::Reset(Some((notif.notification_code(), notif.notification_subcode())));
+                                return Outcome::Reset(Some((
+                                    notif.notification_code(),
+                                    notif.notification_subcode(),
+                                )));
                             }
                             Ok(iter) => {
                                 for msg in iter {
-                                    if let bgp::Message::Update(bgp::Update::Reach { attr, .. }) = &msg
-                                        && is_as_loop(attr, s.export_ctx.local_asn, s.export_ctx.confederation_id)
+                                    if let bgp::Message::Update(bgp::Update::Reach { attr, .. }) =
+                                        &msg
+                                        && is_as_loop(
+                                            attr,
+                                            s.export_ctx.local_asn,
+                                            s.export_ctx.confederation_id,
+                                        )
                                     {
                                         continue;
                                     }
-                                    let step = s.rx_msg(&self.global, self.lsa, self.rsa, msg).await;
+                                    let step =
+                                        s.rx_msg(&self.global, self.lsa, self.rsa, msg).await;
                                     if let Step::Terminate { notification, .. } = step {
                                         let n = match notification {
-                                            Some(bgp::Message::Notification(n)) => Some((n.notification_code(), n.notification_subcode())),
+                                            Some(bgp::Message::Notification(n)) => Some((
+                                                n.notification_code(),
+                                                n.notification_subcode(),
+                                            )),
                                             _ => None,
                                         };
                                         return Outcome::Reset(n);
@@ -2133,7 +2621,9 @@ impl DirectConn {
                     }
                     None => break,
                 },
-                Err(e) => return Outcome::Reset(Some((e.notification_code(), e.notification_subcode()))),
+                Err(e) => {
+                    return Outcome::Reset(Some((e.notification_code(), e.notification_subcode())));
+                }
             }
         }
         // the peer-event arm of run_select: change events addressed to this session
@@ -2161,10 +2651,15 @@ impl DirectConn {
                 if !self.rxbuf.is_empty() {
                     // a frame that the daemon regards as incomplete: in a live session it
                     // would wait for more octets; the harness frames every message itself
-                    return Err(HErr::Watchdog("direct: octets left in the receive buffer (frame regarded as incomplete)".into()));
+                    return Err(HErr::Watchdog(
+                        "direct: octets left in the receive buffer (frame regarded as incomplete)"
+                            .into(),
+                    ));
                 }
                 if sentinel_tag(&self.tables, self.peer) != Some(tag) {
-                    return Err(HErr::Watchdog("direct: sentinel route not visible after the batch was processed".into()));
+                    return Err(HErr::Watchdog(
+                        "direct: sentinel route not visible after the batch was processed".into(),
+                    ));
                 }
                 Ok(Outcome::Alive)
             }
@@ -2256,7 +2751,15 @@ struct Eval {
     batch_hex: Vec<String>,
 }
 
-fn judge(t: &Tmpl, keys: &Keys, faults: &[Fault], bytes: &[u8], pre_a: bool, out: &Outcome, rib: &[Ent]) -> Eval {
+fn judge(
+    t: &Tmpl,
+    keys: &Keys,
+    faults: &[Fault],
+    bytes: &[u8],
+    pre_a: bool,
+    out: &Outcome,
+    rib: &[Ent],
+) -> Eval {
     let mut ev = Eval::default();
     let rec = classify(t, faults);
     let w = walk(bytes);
@@ -2278,9 +2781,20 @@ fn judge(t: &Tmpl, keys: &Keys, faults: &[Fault], bytes: &[u8], pre_a: bool, out
         ev.notes.push(format!("unjudged:{}", u));
     }
     // which duplicate combinations this case carries (evidence counters)
-    for (f, _) in faults.iter().zip(rec.classes.iter()).filter(|(_, c)| **c == Class::Dup) {
-        let first = faults.iter().zip(rec.classes.iter()).find(|(g, _)| g.code == f.code && g.on_first_copy()).map(|(_, c)| *c);
-        let later = faults.iter().zip(rec.classes.iter()).any(|(g, c)| g.code == f.code && *c == Class::LaterCopy);
+    for (f, _) in faults
+        .iter()
+        .zip(rec.classes.iter())
+        .filter(|(_, c)| **c == Class::Dup)
+    {
+        let first = faults
+            .iter()
+            .zip(rec.classes.iter())
+            .find(|(g, _)| g.code == f.code && g.on_first_copy())
+            .map(|(_, c)| *c);
+        let later = faults
+            .iter()
+            .zip(rec.classes.iter())
+            .any(|(g, c)| g.code == f.code && *c == Class::LaterCopy);
         ev.notes.push(
             match (first, later) {
                 (Some(Class::MustWithdraw), false) => "combo:dup+first-mustwithdraw",
@@ -2300,12 +2814,21 @@ fn judge(t: &Tmpl, keys: &Keys, faults: &[Fault], bytes: &[u8], pre_a: bool, out
         return ev;
     }
     let by_key: BTreeMap<&str, &Ent> = rib.iter().map(|e| (e.key.as_str(), e)).collect();
-    let known: BTreeSet<&str> = keys.legacy_a.iter().chain(keys.mp_a.iter()).chain(keys.legacy_w.iter()).chain(keys.mp_w.iter()).map(|s| s.as_str()).collect();
+    let known: BTreeSet<&str> = keys
+        .legacy_a
+        .iter()
+        .chain(keys.mp_a.iter())
+        .chain(keys.legacy_w.iter())
+        .chain(keys.mp_w.iter())
+        .map(|s| s.as_str())
+        .collect();
     if rib.iter().any(|e| !known.contains(e.key.as_str())) {
         ev.unexpected = true;
-        ev.notes.push("unjudged:route-under-a-key-the-template-does-not-have".into());
+        ev.notes
+            .push("unjudged:route-under-a-key-the-template-does-not-have".into());
     }
-    let reset_allowed = rec.framing_touched || rec.mp_reach_touched || rec.mp_unreach_touched || rec.nlri_touched;
+    let reset_allowed =
+        rec.framing_touched || rec.mp_reach_touched || rec.mp_unreach_touched || rec.nlri_touched;
     let chain_detectably_bad = w != Walk::Ok;
     let must_withdraw = rec.classes.contains(&Class::MustWithdraw) || chain_detectably_bad;
     let resynced = rec.framing_touched && !chain_detectably_bad;
@@ -2320,13 +2843,20 @@ fn judge(t: &Tmpl, keys: &Keys, faults: &[Fault], bytes: &[u8], pre_a: bool, out
                 text: format!("session reset (NOTIFICATION {:?}) although the attribute TLV chain, the MP attributes and all NLRI are intact and locatable", n),
             });
         }
-        ev.notes.push(if n.is_some() { "outcome:reset:notification".into() } else { "outcome:reset:closed".into() });
+        ev.notes.push(if n.is_some() {
+            "outcome:reset:notification".into()
+        } else {
+            "outcome:reset:closed".into()
+        });
         // whatever is left of this peer must not stem from the faulty UPDATE
         if !resynced {
             for p in keys.legacy_a.iter().chain(keys.mp_a.iter()) {
                 if let Some(e) = by_key.get(p.as_str())
                     && !e.pre
-                    && (must_withdraw || faults.iter().zip(rec.classes.iter()).any(|(f, c)| *c == Class::Discardable && e.attrs.iter().any(|a| a.code() == f.code)))
+                    && (must_withdraw
+                        || faults.iter().zip(rec.classes.iter()).any(|(f, c)| {
+                            *c == Class::Discardable && e.attrs.iter().any(|a| a.code() == f.code)
+                        }))
                 {
                     ev.findings.push(Finding { clause: "never-installs".into(), code: None, text: format!("prefix {} is left in the RIB with attributes of the faulty UPDATE after the session was reset", p) });
                 }
@@ -2338,7 +2868,8 @@ fn judge(t: &Tmpl, keys: &Keys, faults: &[Fault], bytes: &[u8], pre_a: bool, out
         return ev;
     }
     if !reset_allowed {
-        ev.notes.push("clause:reset:no-reset-needed-and-none".into());
+        ev.notes
+            .push("clause:reset:no-reset-needed-and-none".into());
     }
     if resynced {
         ev.notes.push("unjudged:length-change-resynced".into());
@@ -2347,7 +2878,10 @@ fn judge(t: &Tmpl, keys: &Keys, faults: &[Fault], bytes: &[u8], pre_a: bool, out
     let mp_located = !rec.framing_touched && !rec.mp_reach_touched;
 
     if must_withdraw && !resynced {
-        for (set, located, what) in [(&keys.legacy_a, legacy_located, "legacy"), (&keys.mp_a, mp_located, "MP_REACH")] {
+        for (set, located, what) in [
+            (&keys.legacy_a, legacy_located, "legacy"),
+            (&keys.mp_a, mp_located, "MP_REACH"),
+        ] {
             for p in set.iter() {
                 match by_key.get(p.as_str()) {
                     Some(e) if !e.pre => ev.findings.push(Finding {
@@ -2407,8 +2941,15 @@ fn judge(t: &Tmpl, keys: &Keys, faults: &[Fault], bytes: &[u8], pre_a: bool, out
                             // rx_update gives an iBGP route without LOCAL_PREF the default 100: only a
                             // stored value that is the received one (and not 100) shows the faulty attribute was believed
                             let tv = val_of(t, LOCAL_PREF);
-                            let tv = if tv.len() >= 4 { Some(u32::from_be_bytes([tv[0], tv[1], tv[2], tv[3]])) } else { None };
-                            let sv = attrs.iter().find(|a| a.code() == LOCAL_PREF).and_then(|a| a.value());
+                            let tv = if tv.len() >= 4 {
+                                Some(u32::from_be_bytes([tv[0], tv[1], tv[2], tv[3]]))
+                            } else {
+                                None
+                            };
+                            let sv = attrs
+                                .iter()
+                                .find(|a| a.code() == LOCAL_PREF)
+                                .and_then(|a| a.value());
                             // a later valid copy (duplicate) carries another value: believing that one is as wrong
                             let dv = faults.iter().find_map(|g| match &g.k {
                                 FK::Dup(seed, _) if g.code == LOCAL_PREF && tv.is_some() => {
@@ -2422,12 +2963,17 @@ fn judge(t: &Tmpl, keys: &Keys, faults: &[Fault], bytes: &[u8], pre_a: bool, out
                             } else if sv.is_some() && sv == tv && tv != Some(100) {
                                 ev.findings.push(Finding { clause: "discard".into(), code: None, text: format!("prefix {} stored with the received LOCAL_PREF although that attribute is faulty ({})", p, f.kind()) });
                             } else {
-                                ev.notes.push("unjudged:ibgp-local-pref-default-injected".into());
+                                ev.notes
+                                    .push("unjudged:ibgp-local-pref-default-injected".into());
                             }
                         } else if attrs.iter().any(|a| a.code() == f.code) {
                             ev.findings.push(Finding { clause: "discard".into(), code: None, text: format!("prefix {} stored although attribute {} is faulty ({}) and still attached", p, f.code, f.kind()) });
                         }
-                        if t.cfg.two_byte && f.code == AS4_PATH && present(t, AS_PATH) && !faults.iter().any(|g| g.code == AS_PATH) {
+                        if t.cfg.two_byte
+                            && f.code == AS4_PATH
+                            && present(t, AS_PATH)
+                            && !faults.iter().any(|g| g.code == AS_PATH)
+                        {
                             let want = upconvert_path(val_of(t, AS_PATH));
                             if let Some(a) = attrs.iter().find(|a| a.code() == AS_PATH)
                                 && a.binary() != Some(&want)
@@ -2435,7 +2981,11 @@ fn judge(t: &Tmpl, keys: &Keys, faults: &[Fault], bytes: &[u8], pre_a: bool, out
                                 ev.findings.push(Finding { clause: "discard".into(), code: None, text: format!("prefix {} stored with an AS_PATH that is not the received one although AS4_PATH is faulty", p) });
                             }
                         }
-                        if t.cfg.two_byte && f.code == AS4_AGGREGATOR && present(t, AGGREGATOR) && !faults.iter().any(|g| g.code == AGGREGATOR) {
+                        if t.cfg.two_byte
+                            && f.code == AS4_AGGREGATOR
+                            && present(t, AGGREGATOR)
+                            && !faults.iter().any(|g| g.code == AGGREGATOR)
+                        {
                             let v = val_of(t, AGGREGATOR);
                             let mut want = vec![0, 0, v[0], v[1]];
                             want.extend_from_slice(&v[2..]);
@@ -2449,25 +2999,47 @@ fn judge(t: &Tmpl, keys: &Keys, faults: &[Fault], bytes: &[u8], pre_a: bool, out
                     Class::Dup => {
                         // first copy itself faulty and discardable: the attribute must be gone
                         // altogether (judged by the Discardable arm), a later copy is never believed
-                        let first_discardable = faults.iter().zip(rec.classes.iter()).any(|(g, gc)| g.code == f.code && g.on_first_copy() && *gc == Class::Discardable);
+                        let first_discardable =
+                            faults.iter().zip(rec.classes.iter()).any(|(g, gc)| {
+                                g.code == f.code && g.on_first_copy() && *gc == Class::Discardable
+                            });
                         if first_discardable {
                             if !attrs.iter().any(|a| a.code() == f.code) {
-                                ev.notes.push("clause:dup-first-discardable:kept-without-attr".into());
+                                ev.notes
+                                    .push("clause:dup-first-discardable:kept-without-attr".into());
                             }
                             continue;
                         }
-                        if faults.iter().zip(rec.classes.iter()).any(|(g, gc)| g.code == f.code && *gc == Class::LaterCopy) {
+                        if faults
+                            .iter()
+                            .zip(rec.classes.iter())
+                            .any(|(g, gc)| g.code == f.code && *gc == Class::LaterCopy)
+                        {
                             ev.notes.push("clause:dup-later-faulty:kept".into());
                         }
                         let n = attrs.iter().filter(|a| a.code() == f.code).count();
                         if n > 1 {
-                            ev.findings.push(Finding { clause: "discard".into(), code: None, text: format!("prefix {} stored with {} copies of attribute {}", p, n, f.code) });
+                            ev.findings.push(Finding {
+                                clause: "discard".into(),
+                                code: None,
+                                text: format!(
+                                    "prefix {} stored with {} copies of attribute {}",
+                                    p, n, f.code
+                                ),
+                            });
                         } else if let Some(a) = attrs.iter().find(|a| a.code() == f.code) {
                             let first = val_of(t, f.code);
                             let same = match f.code {
                                 ORIGIN => a.value() == Some(first[0] as u32),
-                                MED | LOCAL_PREF | ORIGINATOR_ID => a.value() == Some(u32::from_be_bytes([first[0], first[1], first[2], first[3]])),
-                                COMMUNITY | CLUSTER_LIST | EXT_COMMUNITY | LARGE_COMMUNITY => a.binary().map(|b| b.as_slice()) == Some(first),
+                                MED | LOCAL_PREF | ORIGINATOR_ID => {
+                                    a.value()
+                                        == Some(u32::from_be_bytes([
+                                            first[0], first[1], first[2], first[3],
+                                        ]))
+                                }
+                                COMMUNITY | CLUSTER_LIST | EXT_COMMUNITY | LARGE_COMMUNITY => {
+                                    a.binary().map(|b| b.as_slice()) == Some(first)
+                                }
                                 _ => true,
                             };
                             if !same {
@@ -2479,7 +3051,11 @@ fn judge(t: &Tmpl, keys: &Keys, faults: &[Fault], bytes: &[u8], pre_a: bool, out
                 }
             }
         }
-        if rec.classes.iter().any(|c| matches!(c, Class::Discardable | Class::Dup)) {
+        if rec
+            .classes
+            .iter()
+            .any(|c| matches!(c, Class::Discardable | Class::Dup))
+        {
             if kept > 0 {
                 ev.notes.push("clause:discard:kept".into());
             }
@@ -2488,7 +3064,8 @@ fn judge(t: &Tmpl, keys: &Keys, faults: &[Fault], bytes: &[u8], pre_a: bool, out
             }
         }
         if neither > 0 {
-            ev.notes.push("unjudged:announced-prefix-neither-kept-nor-withdrawn".into());
+            ev.notes
+                .push("unjudged:announced-prefix-neither-kept-nor-withdrawn".into());
         }
     }
 
@@ -2497,7 +3074,14 @@ fn judge(t: &Tmpl, keys: &Keys, faults: &[Fault], bytes: &[u8], pre_a: bool, out
         if keys.legacy_w_ctl {
             for p in keys.legacy_w.iter() {
                 if by_key.contains_key(p.as_str()) {
-                    ev.findings.push(Finding { clause: "withdrawals-survive".into(), code: None, text: format!("route {} withdrawn by the same message is still in the RIB", p) });
+                    ev.findings.push(Finding {
+                        clause: "withdrawals-survive".into(),
+                        code: None,
+                        text: format!(
+                            "route {} withdrawn by the same message is still in the RIB",
+                            p
+                        ),
+                    });
                 }
             }
             ev.notes.push("clause:withdrawals:legacy-checked".into());
@@ -2509,7 +3093,14 @@ fn judge(t: &Tmpl, keys: &Keys, faults: &[Fault], bytes: &[u8], pre_a: bool, out
         if keys.mp_w_ctl {
             for p in keys.mp_w.iter() {
                 if by_key.contains_key(p.as_str()) {
-                    ev.findings.push(Finding { clause: "withdrawals-survive".into(), code: None, text: format!("MP_UNREACH route {} of the same message is still in the RIB", p) });
+                    ev.findings.push(Finding {
+                        clause: "withdrawals-survive".into(),
+                        code: None,
+                        text: format!(
+                            "MP_UNREACH route {} of the same message is still in the RIB",
+                            p
+                        ),
+                    });
                 }
             }
             ev.notes.push("clause:withdrawals:mp-checked".into());
@@ -2520,7 +3111,9 @@ fn judge(t: &Tmpl, keys: &Keys, faults: &[Fault], bytes: &[u8], pre_a: bool, out
 
     // ebgp-filter
     if t.cfg.is_ebgp() {
-        let had = [LOCAL_PREF, ORIGINATOR_ID, CLUSTER_LIST].iter().any(|c| present(t, *c));
+        let had = [LOCAL_PREF, ORIGINATOR_ID, CLUSTER_LIST]
+            .iter()
+            .any(|c| present(t, *c));
         let mut stored = false;
         for e in rib.iter().filter(|e| !e.pre) {
             stored = true;
@@ -2531,7 +3124,8 @@ fn judge(t: &Tmpl, keys: &Keys, faults: &[Fault], bytes: &[u8], pre_a: bool, out
             }
         }
         if had && stored {
-            ev.notes.push("clause:ebgp-filter:stored-with-ibgp-attrs-in-input".into());
+            ev.notes
+                .push("clause:ebgp-filter:stored-with-ibgp-attrs-in-input".into());
         }
     }
     let any_new = rib.iter().any(|e| !e.pre);
@@ -2579,20 +3173,30 @@ struct Pool {
 async fn ensure<'a>(pool: &'a mut Pool, st: &mut St, cfg: &Cfg) -> Result<&'a mut Conn, HErr> {
     let k = cfg_key(cfg);
     if !pool.conns.contains_key(&k) {
-        let c = if st.mode == "socket" { Conn::Sock(Box::new(SockConn::new(*cfg).await?)) } else { Conn::Direct(Box::new(DirectConn::new(*cfg))) };
+        let c = if st.mode == "socket" {
+            Conn::Sock(Box::new(SockConn::new(*cfg).await?))
+        } else {
+            Conn::Direct(Box::new(DirectConn::new(*cfg)))
+        };
         pool.conns.insert(k, c);
     }
     let c = pool.conns.get_mut(&k).unwrap();
     if !c.alive() {
         pool.dirty.remove(&k);
         c.establish().await?;
-        st.rep.count(&format!("e2e:sessions:established:{}", st.mode));
+        st.rep
+            .count(&format!("e2e:sessions:established:{}", st.mode));
     }
     Ok(c)
 }
 
 /// send one batch on the session of `t.cfg` and read the RIB back at quiescence
-async fn run_batch(pool: &mut Pool, st: &mut St, t: &Tmpl, mut msgs: Vec<Vec<u8>>) -> Result<(Outcome, Vec<Ent>, Vec<String>), HErr> {
+async fn run_batch(
+    pool: &mut Pool,
+    st: &mut St,
+    t: &Tmpl,
+    mut msgs: Vec<Vec<u8>>,
+) -> Result<(Outcome, Vec<Ent>, Vec<String>), HErr> {
     let k = cfg_key(&t.cfg);
     // a session may have been lost by the previous case: make sure one is up first
     ensure(pool, st, &t.cfg).await?;
@@ -2636,7 +3240,11 @@ async fn control(pool: &mut Pool, st: &mut St, t: &Tmpl) -> Result<Result<Keys, 
 }
 
 /// control phase: the valid template on a clean session
-async fn control_once(pool: &mut Pool, st: &mut St, t: &Tmpl) -> Result<Result<Keys, String>, HErr> {
+async fn control_once(
+    pool: &mut Pool,
+    st: &mut St,
+    t: &Tmpl,
+) -> Result<Result<Keys, String>, HErr> {
     let k = cfg_key(&t.cfg);
     let lw: Vec<&Vec<u8>> = t.withdrawn.iter().collect();
     let mw: Vec<&Vec<u8>> = t.mp_w_nlri.iter().collect();
@@ -2644,13 +3252,19 @@ async fn control_once(pool: &mut Pool, st: &mut St, t: &Tmpl) -> Result<Result<K
     first.extend(pre_msgs(t, &lw, &mw));
     let (o1, rib1, _) = run_batch(pool, st, t, first).await?;
     if o1 != Outcome::Alive {
-        return Ok(Err(format!("the harness's own valid pre-install UPDATEs reset the session: {:?}", o1)));
+        return Ok(Err(format!(
+            "the harness's own valid pre-install UPDATEs reset the session: {:?}",
+            o1
+        )));
     }
     let mut keys = Keys::default();
     let legacy_w_is_v4 = !t.withdrawn.is_empty();
     for e in rib1.iter() {
         if !e.pre {
-            return Ok(Err(format!("route {} without the pre-install mark on a cleaned session", e.key)));
+            return Ok(Err(format!(
+                "route {} without the pre-install mark on a cleaned session",
+                e.key
+            )));
         }
         if e.fam == Family::IPV4 && legacy_w_is_v4 && t.mp_fam != Some(Fam::V4Mp) {
             keys.legacy_w.push(e.key.clone());
@@ -2694,11 +3308,17 @@ async fn control_once(pool: &mut Pool, st: &mut St, t: &Tmpl) -> Result<Result<K
             describe_rib(&rib2)
         )));
     }
-    keys.legacy_w_ctl = !keys.legacy_w.iter().any(|p| rib2.iter().any(|e| &e.key == p));
+    keys.legacy_w_ctl = !keys
+        .legacy_w
+        .iter()
+        .any(|p| rib2.iter().any(|e| &e.key == p));
     keys.mp_w_ctl = !keys.mp_w.iter().any(|p| rib2.iter().any(|e| &e.key == p));
     let (o3, rib3, _) = run_batch(pool, st, t, vec![cleanup_msg(t)]).await?;
     if o3 != Outcome::Alive {
-        return Ok(Err(format!("the harness's own valid cleanup UPDATE reset the session: {:?}", o3)));
+        return Ok(Err(format!(
+            "the harness's own valid cleanup UPDATE reset the session: {:?}",
+            o3
+        )));
     }
     keys.cleanup_ok = rib3.is_empty();
     let _ = k;
@@ -2706,7 +3326,14 @@ async fn control_once(pool: &mut Pool, st: &mut St, t: &Tmpl) -> Result<Result<K
 }
 
 /// one corrupted variant
-async fn run_case(pool: &mut Pool, st: &mut St, t: &Tmpl, keys: &Keys, faults: &[Fault], pre_a: bool) -> Result<Eval, HErr> {
+async fn run_case(
+    pool: &mut Pool,
+    st: &mut St,
+    t: &Tmpl,
+    keys: &Keys,
+    faults: &[Fault],
+    pre_a: bool,
+) -> Result<Eval, HErr> {
     // a valid withdrawal did not take effect in the control phase: the cleanup message cannot be
     // relied on for this template, every case gets a session (and RIB) of its own
     let unreliable_cleanup = !keys.cleanup_ok;
@@ -2727,7 +3354,11 @@ async fn run_case(pool: &mut Pool, st: &mut St, t: &Tmpl, keys: &Keys, faults: &
     if out == Outcome::Alive {
         if ev.unexpected || unreliable_cleanup {
             // routes the cleanup message does not remove: start over with a new session
-            st.rep.count(if ev.unexpected { "e2e:sessions:restarted-after-unexpected-route" } else { "e2e:sessions:restarted-cleanup-unreliable" });
+            st.rep.count(if ev.unexpected {
+                "e2e:sessions:restarted-after-unexpected-route"
+            } else {
+                "e2e:sessions:restarted-cleanup-unreliable"
+            });
             restart(pool, k).await?;
         } else {
             pool.dirty.entry(k).or_default().push(cleanup_msg(t));
@@ -2738,7 +3369,11 @@ async fn run_case(pool: &mut Pool, st: &mut St, t: &Tmpl, keys: &Keys, faults: &
 
 fn e2e_signature(clause: &str, code: Option<u8>, faults: &[Fault]) -> String {
     let s = signature(clause, code, faults);
-    if clause.starts_with("panic/") { s } else { s.replacen("C05/", "C05/e2e/", 1) }
+    if clause.starts_with("panic/") {
+        s
+    } else {
+        s.replacen("C05/", "C05/e2e/", 1)
+    }
 }
 
 fn case_json(st: &St, t: &Tmpl, faults: &[Fault], pre_a: bool, ev: &Eval, expected: &str) -> Json {
@@ -2750,17 +3385,38 @@ fn case_json(st: &St, t: &Tmpl, faults: &[Fault], pre_a: bool, ev: &Eval, expect
         ("addpath_rx", Json::Bool(t.cfg.addpath)),
         ("scenario", Json::s(t.scenario)),
         ("mp_family", Json::s(format!("{:?}", t.mp_fam))),
-        ("announced_prefixes_held_from_earlier_update", Json::Bool(pre_a)),
+        (
+            "announced_prefixes_held_from_earlier_update",
+            Json::Bool(pre_a),
+        ),
         ("valid_update_hex", Json::s(hex(&build(t, &[]).bytes))),
-        ("faults", Json::strs(faults.iter().map(|f| format!("attr {} {} {:?}", f.code, f.kind(), f.k)))),
+        (
+            "faults",
+            Json::strs(
+                faults
+                    .iter()
+                    .map(|f| format!("attr {} {} {:?}", f.code, f.kind(), f.k)),
+            ),
+        ),
         ("update_hex", Json::s(hex(&build(t, faults).bytes))),
-        ("batch_hex_in_order", Json::strs(ev.batch_hex.iter().cloned())),
+        (
+            "batch_hex_in_order",
+            Json::strs(ev.batch_hex.iter().cloned()),
+        ),
         ("observed", Json::s(ev.observed.clone())),
         ("expected", Json::s(expected)),
     ])
 }
 
-async fn minimize(pool: &mut Pool, st: &mut St, t: &Tmpl, keys: &Keys, faults: &[Fault], pre_a: bool, clause: &str) -> Result<(Vec<Fault>, Option<Eval>), HErr> {
+async fn minimize(
+    pool: &mut Pool,
+    st: &mut St,
+    t: &Tmpl,
+    keys: &Keys,
+    faults: &[Fault],
+    pre_a: bool,
+    clause: &str,
+) -> Result<(Vec<Fault>, Option<Eval>), HErr> {
     let mut cur = faults.to_vec();
     let mut last: Option<Eval> = None;
     let mut i = 0;
@@ -2779,15 +3435,30 @@ async fn minimize(pool: &mut Pool, st: &mut St, t: &Tmpl, keys: &Keys, faults: &
     Ok((cur, last))
 }
 
-async fn template_round(pool: &mut Pool, st: &mut St, rng: &mut Rng, only: Option<&str>) -> Result<(), HErr> {
+async fn template_round(
+    pool: &mut Pool,
+    st: &mut St,
+    rng: &mut Rng,
+    only: Option<&str>,
+) -> Result<(), HErr> {
     let t = gen_template(rng);
     let keys = match control(pool, st, &t).await? {
         Ok(k) => k,
         Err(e) => {
             st.rep.count("harness:control-failed");
-            st.rep.inconclusive(&format!("control phase failed ({} {} {}): {}", st.mode, t.cfg.name(), t.scenario, e));
+            st.rep.inconclusive(&format!(
+                "control phase failed ({} {} {}): {}",
+                st.mode,
+                t.cfg.name(),
+                t.scenario,
+                e
+            ));
             if st.rep.want_sample() {
-                st.rep.sample(Json::obj(vec![("control_failed", Json::s(e)), ("session", Json::s(t.cfg.name())), ("valid_update_hex", Json::s(hex(&build(&t, &[]).bytes)))]));
+                st.rep.sample(Json::obj(vec![
+                    ("control_failed", Json::s(e)),
+                    ("session", Json::s(t.cfg.name())),
+                    ("valid_update_hex", Json::s(hex(&build(&t, &[]).bytes))),
+                ]));
             }
             // do not trust the state of that session any further
             if let Some(c) = pool.conns.get_mut(&cfg_key(&t.cfg)) {
@@ -2799,11 +3470,15 @@ async fn template_round(pool: &mut Pool, st: &mut St, rng: &mut Rng, only: Optio
     st.rep.eval();
     st.rep.count(&format!("e2e:control:ok:{}", st.mode));
     if !keys.cleanup_ok {
-        st.rep.count(&format!("e2e:control:cleanup-ineffective:{:?}", t.mp_fam));
+        st.rep
+            .count(&format!("e2e:control:cleanup-ineffective:{:?}", t.mp_fam));
         restart(pool, cfg_key(&t.cfg)).await?;
     }
     // the valid UPDATE is the case "no fault": its withdrawals are judged too
-    for (ok, set, what) in [(keys.legacy_w_ctl, &keys.legacy_w, "withdrawn route"), (keys.mp_w_ctl, &keys.mp_w, "MP_UNREACH route")] {
+    for (ok, set, what) in [
+        (keys.legacy_w_ctl, &keys.legacy_w, "withdrawn route"),
+        (keys.mp_w_ctl, &keys.mp_w, "MP_UNREACH route"),
+    ] {
         if !set.is_empty() {
             st.rep.count("e2e:control:withdrawals-checked");
         }
@@ -2821,7 +3496,18 @@ async fn template_round(pool: &mut Pool, st: &mut St, rng: &mut Rng, only: Optio
                 ("session", Json::s(t.cfg.name())),
                 ("mp_family", Json::s(format!("{:?}", t.mp_fam))),
                 ("valid_update_hex", Json::s(hex(&build(&t, &[]).bytes))),
-                ("pre_install_hex", Json::strs(pre_msgs(&t, &t.withdrawn.iter().collect::<Vec<_>>(), &t.mp_w_nlri.iter().collect::<Vec<_>>()).iter().map(|m| hex(m)))),
+                (
+                    "pre_install_hex",
+                    Json::strs(
+                        pre_msgs(
+                            &t,
+                            &t.withdrawn.iter().collect::<Vec<_>>(),
+                            &t.mp_w_nlri.iter().collect::<Vec<_>>(),
+                        )
+                        .iter()
+                        .map(|m| hex(m)),
+                    ),
+                ),
                 ("still_in_rib", Json::strs(set.iter().cloned())),
             ]);
             st.rep.violation(&sig, &format!("a valid UPDATE (no fault at all) withdraws a {} that an earlier UPDATE of the same session installed, and the route is still in the Adj-RIB-In [{} {}]", what, st.mode, t.cfg.name()), w);
@@ -2839,7 +3525,11 @@ async fn template_round(pool: &mut Pool, st: &mut St, rng: &mut Rng, only: Optio
         rep.count(&format!("e2e:cases:{}", st.mode));
         rep.count(&format!("e2e:scenario:{}", t.scenario));
         rep.count(&format!("e2e:session:{:?}", t.cfg.role));
-        rep.count(if t.cfg.two_byte { "e2e:session:as2" } else { "e2e:session:as4" });
+        rep.count(if t.cfg.two_byte {
+            "e2e:session:as2"
+        } else {
+            "e2e:session:as4"
+        });
         if t.cfg.addpath {
             rep.count("e2e:session:addpath");
         }
@@ -2860,7 +3550,10 @@ async fn template_round(pool: &mut Pool, st: &mut St, rng: &mut Rng, only: Optio
                 rep.inconclusive(&format!("harness self-check failed: {}", nte));
             }
         }
-        let nontrivial = announces(&t) && rec.classes.iter().zip(faults.iter()).any(|(c, f)| *c != Class::Benign || !matches!(f.k, FK::LowBits(_) | FK::ExtLen | FK::Partial));
+        let nontrivial = announces(&t)
+            && rec.classes.iter().zip(faults.iter()).any(|(c, f)| {
+                *c != Class::Benign || !matches!(f.k, FK::LowBits(_) | FK::ExtLen | FK::Partial)
+            });
         if nontrivial {
             let mut kb = build(&t, &faults).bytes;
             kb.push(t.cfg.role as u8);
@@ -2893,7 +3586,12 @@ async fn template_round(pool: &mut Pool, st: &mut St, rng: &mut Rng, only: Optio
                 (faults.clone(), None)
             };
             let evm_ref = evm.as_ref().unwrap_or(&ev);
-            let fm = evm_ref.findings.iter().find(|g| g.clause == f.clause).cloned().unwrap_or(f.clone());
+            let fm = evm_ref
+                .findings
+                .iter()
+                .find(|g| g.clause == f.clause)
+                .cloned()
+                .unwrap_or(f.clone());
             let sig = match (evm_ref.walk_bad, f.clause.as_str()) {
                 (Some(k), "never-installs") => format!("C05/e2e/never-installs/0/{}", k),
                 _ => e2e_signature(&f.clause, fm.code, &min),
@@ -2904,7 +3602,14 @@ async fn template_round(pool: &mut Pool, st: &mut St, rng: &mut Rng, only: Optio
                 fm.text,
                 st.mode,
                 t.cfg.name(),
-                if min.is_empty() { "none".to_string() } else { min.iter().map(|f| format!("attr {} {}", f.code, f.kind())).collect::<Vec<_>>().join(", ") }
+                if min.is_empty() {
+                    "none".to_string()
+                } else {
+                    min.iter()
+                        .map(|f| format!("attr {} {}", f.code, f.kind()))
+                        .collect::<Vec<_>>()
+                        .join(", ")
+                }
             );
             let wj = case_json(st, &t, &min, pre_a, evm_ref, &fm.text);
             st.rep.violation(&sig, &what, wj);
@@ -2925,28 +3630,54 @@ async fn early_update(st: &mut St, rng: &mut Rng) -> Result<(), HErr> {
     if !announces(&t) {
         return Ok(());
     }
-    let faults = if rng.bool() { Vec::new() } else { choose_faults(&t, rng, None) };
+    let faults = if rng.bool() {
+        Vec::new()
+    } else {
+        choose_faults(&t, rng, None)
+    };
     let bytes = build(&t, &faults).bytes;
     if walk(&bytes) == Walk::FramingBad {
         return Ok(());
     }
-    let mut conn = if st.mode == "socket" { Conn::Sock(Box::new(SockConn::new(t.cfg).await?)) } else { Conn::Direct(Box::new(DirectConn::new(t.cfg))) };
+    let mut conn = if st.mode == "socket" {
+        Conn::Sock(Box::new(SockConn::new(t.cfg).await?))
+    } else {
+        Conn::Direct(Box::new(DirectConn::new(t.cfg)))
+    };
     st.in_flight = vec![format!("(after OPEN, before KEEPALIVE) {}", hex(&bytes))];
     st.in_flight_session = t.cfg.name();
     let out = conn.establish_with(Some(&bytes)).await?;
     let rib = conn.rib();
     st.in_flight.clear();
     st.rep.eval();
-    st.rep.count(&format!("e2e:early-update:checked:{}", st.mode));
-    st.rep.count(if out == Outcome::Alive { "e2e:early-update:session-survived" } else { "e2e:early-update:session-reset" });
+    st.rep
+        .count(&format!("e2e:early-update:checked:{}", st.mode));
+    st.rep.count(if out == Outcome::Alive {
+        "e2e:early-update:session-survived"
+    } else {
+        "e2e:early-update:session-reset"
+    });
     if !rib.is_empty() {
         let w = Json::obj(vec![
             ("mode", Json::s(st.mode)),
             ("session", Json::s(t.cfg.name())),
-            ("sequence", Json::s("OPEN, this UPDATE, KEEPALIVE, sentinel UPDATE")),
+            (
+                "sequence",
+                Json::s("OPEN, this UPDATE, KEEPALIVE, sentinel UPDATE"),
+            ),
             ("update_hex", Json::s(hex(&bytes))),
-            ("faults", Json::strs(faults.iter().map(|f| format!("attr {} {} {:?}", f.code, f.kind(), f.k)))),
-            ("observed", Json::s(format!("{:?}; Adj-RIB-In = {}", out, describe_rib(&rib)))),
+            (
+                "faults",
+                Json::strs(
+                    faults
+                        .iter()
+                        .map(|f| format!("attr {} {} {:?}", f.code, f.kind(), f.k)),
+                ),
+            ),
+            (
+                "observed",
+                Json::s(format!("{:?}; Adj-RIB-In = {}", out, describe_rib(&rib))),
+            ),
         ]);
         st.rep.violation(
             "C05/e2e/never-installs/0/update-before-established",
@@ -2959,7 +3690,10 @@ async fn early_update(st: &mut St, rng: &mut Rng) -> Result<(), HErr> {
 
 /// runs templates until the count / budget is used up; returns early on a harness error
 async fn epoch(st: &mut St, rng: &mut Rng, only: Option<&str>, stop_at: f64) {
-    let mut pool = Pool { conns: BTreeMap::new(), dirty: BTreeMap::new() };
+    let mut pool = Pool {
+        conns: BTreeMap::new(),
+        dirty: BTreeMap::new(),
+    };
     while st.templates_left > 0 && st.rep.elapsed() < stop_at {
         st.templates_left -= 1;
         let r = if st.templates_left % 16 == 3 && only.is_none() {
@@ -2971,12 +3705,14 @@ async fn epoch(st: &mut St, rng: &mut Rng, only: Option<&str>, stop_at: f64) {
             Ok(()) => {}
             Err(HErr::Watchdog(w)) => {
                 st.rep.count("harness:watchdog");
-                st.rep.inconclusive(&format!("watchdog ({}): {}", st.mode, w));
+                st.rep
+                    .inconclusive(&format!("watchdog ({}): {}", st.mode, w));
                 break;
             }
             Err(HErr::Setup(w)) => {
                 st.rep.count("harness:setup");
-                st.rep.inconclusive(&format!("session setup failed ({}): {}", st.mode, w));
+                st.rep
+                    .inconclusive(&format!("session setup failed ({}): {}", st.mode, w));
                 break;
             }
         }
@@ -2984,7 +3720,8 @@ async fn epoch(st: &mut St, rng: &mut Rng, only: Option<&str>, stop_at: f64) {
     // end every session in an orderly way (a panic while closing is still a panic of the daemon)
     for (_, c) in pool.conns.iter_mut() {
         if let Err(HErr::Watchdog(w)) = c.close().await {
-            st.rep.inconclusive(&format!("watchdog at shutdown ({}): {}", st.mode, w));
+            st.rep
+                .inconclusive(&format!("watchdog at shutdown ({}): {}", st.mode, w));
         }
     }
 }
@@ -2992,7 +3729,10 @@ async fn epoch(st: &mut St, rng: &mut Rng, only: Option<&str>, stop_at: f64) {
 fn run_mode(st: &mut St, rng: &mut Rng, only: Option<&str>, stop_at: f64) {
     let mut panics = 0;
     while st.templates_left > 0 && st.rep.elapsed() < stop_at && panics < 20 {
-        let rt = match tokio::runtime::Builder::new_current_thread().enable_all().build() {
+        let rt = match tokio::runtime::Builder::new_current_thread()
+            .enable_all()
+            .build()
+        {
             Ok(rt) => rt,
             Err(e) => {
                 st.rep.inconclusive(&format!("no tokio runtime: {}", e));
@@ -3003,7 +3743,16 @@ fn run_mode(st: &mut St, rng: &mut Rng, only: Option<&str>, stop_at: f64) {
         drop(rt);
         match r {
             Ok(()) => {
-                if !st.rep.inconclusive.is_empty() && st.rep.counters.get("harness:watchdog").copied().unwrap_or(0) + st.rep.counters.get("harness:setup").copied().unwrap_or(0) >= 3 {
+                if !st.rep.inconclusive.is_empty()
+                    && st
+                        .rep
+                        .counters
+                        .get("harness:watchdog")
+                        .copied()
+                        .unwrap_or(0)
+                        + st.rep.counters.get("harness:setup").copied().unwrap_or(0)
+                        >= 3
+                {
                     return;
                 }
             }
@@ -3013,10 +3762,20 @@ fn run_mode(st: &mut St, rng: &mut Rng, only: Option<&str>, stop_at: f64) {
                 let w = Json::obj(vec![
                     ("mode", Json::s(st.mode)),
                     ("session", Json::s(st.in_flight_session.clone())),
-                    ("batch_hex_in_order", Json::strs(st.in_flight.iter().cloned())),
+                    (
+                        "batch_hex_in_order",
+                        Json::strs(st.in_flight.iter().cloned()),
+                    ),
                     ("panic", Json::s(format!("{}: {}", p.location, p.message))),
                 ]);
-                st.rep.violation(&sig, &format!("the daemon's receive path panicked at {}: {} [{} {}]", p.location, p.message, st.mode, st.in_flight_session), w);
+                st.rep.violation(
+                    &sig,
+                    &format!(
+                        "the daemon's receive path panicked at {}: {} [{} {}]",
+                        p.location, p.message, st.mode, st.in_flight_session
+                    ),
+                    w,
+                );
                 st.rep.count("e2e:finding:panic");
             }
         }
@@ -3030,7 +3789,16 @@ fn run() {
     let rep = Report::new("C05", &params);
     let mode = params.get("mode").unwrap_or("both").to_string();
     let only = params.get("only").map(|s| s.to_string());
-    let mut st = St { rep, mode: "socket", tag: 0, sig_cache: BTreeMap::new(), minimised: 0, in_flight: Vec::new(), in_flight_session: String::new(), templates_left: 0 };
+    let mut st = St {
+        rep,
+        mode: "socket",
+        tag: 0,
+        sig_cache: BTreeMap::new(),
+        minimised: 0,
+        in_flight: Vec::new(),
+        in_flight_session: String::new(),
+        templates_left: 0,
+    };
     st.rep.extra("rule_e2e", Json::s(rule));
     st.rep.max_samples = 4;
     let budget = params.budget_s;
@@ -3048,15 +3816,30 @@ fn run() {
         st.mode = if mode == "direct" { "direct" } else { "socket" };
         let msgs: Vec<Vec<u8>> = h.split(',').map(unhex).collect();
         let r = guard(|| {
-            let rt = tokio::runtime::Builder::new_current_thread().enable_all().build().unwrap();
+            let rt = tokio::runtime::Builder::new_current_thread()
+                .enable_all()
+                .build()
+                .unwrap();
             rt.block_on(async {
-                let mut conn = if st.mode == "socket" { Conn::Sock(Box::new(SockConn::new(cfg).await.unwrap())) } else { Conn::Direct(Box::new(DirectConn::new(cfg))) };
+                let mut conn = if st.mode == "socket" {
+                    Conn::Sock(Box::new(SockConn::new(cfg).await.unwrap()))
+                } else {
+                    Conn::Direct(Box::new(DirectConn::new(cfg)))
+                };
                 conn.establish().await.unwrap();
                 for (i, m) in msgs.iter().enumerate() {
                     let mut b = m.clone();
                     b.extend_from_slice(&sentinel_msg(&cfg, 100 + i as u32));
                     let out = conn.exchange(&b, 100 + i as u32).await;
-                    println!("{} {} after message {} [walk {:?}]: {:?}; Adj-RIB-In = {}", st.mode, cfg.name(), i + 1, walk(m), out, describe_rib(&conn.rib()));
+                    println!(
+                        "{} {} after message {} [walk {:?}]: {:?}; Adj-RIB-In = {}",
+                        st.mode,
+                        cfg.name(),
+                        i + 1,
+                        walk(m),
+                        out,
+                        describe_rib(&conn.rib())
+                    );
                     if !matches!(out, Ok(Outcome::Alive)) {
                         break;
                     }
@@ -3074,7 +3857,11 @@ fn run() {
         st.mode = "socket";
         st.templates_left = params.get_u64("templates", params.n(1500, 6000));
         st.minimised = 0;
-        let stop = if mode == "both" { budget * 0.5 } else { budget * 0.92 };
+        let stop = if mode == "both" {
+            budget * 0.5
+        } else {
+            budget * 0.92
+        };
         run_mode(&mut st, &mut rng, only.as_deref(), stop);
     }
     if mode == "direct" || mode == "both" {
